@@ -130,9 +130,14 @@ fn vectored_iter<'a, T: BinaryArrayType<'a> + 'a>(
     a_v: &'a dyn AnyDictionaryArray,
 ) -> impl Iterator<Item = Option<&'a [u8]>> + 'a {
     let nulls = a_v.nulls();
-    let keys = a_v.normalized_keys();
+    // a dictionary without values can only contain null keys (`normalized_keys` panics on it)
+    let empty = a_v.values().is_empty();
+    let keys = match empty {
+        true => vec![0; a_v.len()],
+        false => a_v.normalized_keys(),
+    };
     keys.into_iter().enumerate().map(move |(idx, key)| {
-        if nulls.is_some_and(|n| n.is_null(idx)) || a.is_null(key) {
+        if empty || nulls.is_some_and(|n| n.is_null(idx)) || a.is_null(key) {
             return None;
         }
         Some(a.value(key))
